@@ -24,7 +24,8 @@ From PV Require Import Genesis.RoundTrip Genesis.Indexed Genesis.ExchangeGenesis
                        Proofs.QuarantineAcceptProofs Proofs.FullWitness
                        Genesis.MarkerLifecycle Genesis.NameParams Genesis.ProcessHistory
                        Proofs.MarkerLifecycleProofs Proofs.NameParamsProofs Proofs.ProcessHistoryProofs
-                       Gen.GenStorePrefixes Genesis.StorePrefixDoc Proofs.StorePrefixProofs.
+                       Gen.GenStorePrefixes Genesis.StorePrefixDoc Proofs.StorePrefixProofs
+                       Genesis.DanglingRefs Proofs.DanglingRefsProofs.
 Open Scope Z_scope.
 
 (** Every history of raw store writes and deletes leaves a strictly key-sorted table: the
@@ -314,6 +315,21 @@ Theorem C18_name_params_tightened_export_rejected_refuted :
   name_import (fun k => k) norm_len (fun _ => true) (name_export s) = None.
 Proof. exact name_params_tightened_export_rejected. Qed.
 Print Assumptions C18_name_params_tightened_export_rejected_refuted.
+
+(** ---------- references to deleted objects of another module ---------- *)
+
+(** No InitGenesis of the ten modules reads the marker module's state.  So whatever becomes of it -
+    markers cancelled, deleted and purged whose denom still prices a scope or marker net asset value,
+    an order, a hold or a trigger action, or whose account still carries attributes, owns names, is a
+    payment target or has data access to a scope - the export of the whole state is accepted by a
+    fresh chain and rebuilds every module exactly. *)
+Theorem C18_dangling_marker_references_survive : forall x s mk',
+  full_wf x s ->
+  marker_wf (fx_marker_valid x) (fx_nav_valid x) mk' ->
+  (forall k m, In (k, m) (mks_accounts mk') -> fx_other_accnum x (mr_addr m) = Some (mr_accnum m)) ->
+  exists g, full_export x (with_marker s mk') = Some g /\ full_import x g = Some (with_marker s mk').
+Proof. exact dangling_marker_references_survive. Qed.
+Print Assumptions C18_dangling_marker_references_survive.
 
 (** ---------- every store prefix is exported, rebuilt by InitGenesis, or listed with a reason ---------- *)
 
